@@ -286,3 +286,909 @@ Proof.
   unfold sync_thread. destruct (_ =? _); reflexivity.
 Qed.
 
+(** ** 3. one call of LoadFilter over the concrete kernel model *)
+Definition kworld := world kstate.
+
+Definition wf_filt (f:filt) : Prop := f_flag f < 4294967296.    (* FilterFlag is a uint32 *)
+
+Definition has_top (st:kstate) (t fid:N) : Prop :=
+  exists th, In th (ks_threads st) /\ t_tid th = t /\ hd_error (t_filters th) = Some fid.
+Definition all_have_top (st:kstate) (fid:N) : Prop :=
+  Forall (fun th => hd_error (t_filters th) = Some fid) (ks_threads st).
+Definition fresh_fid (st:kstate) (fid:N) : Prop :=
+  Forall (fun th => ~ In fid (t_filters th)) (ks_threads st).
+(** thread ids and filter stacks *)
+Definition stacks (st:kstate) : list (N * list N) := map (fun th => (t_tid th, t_filters th)) (ks_threads st).
+(** thread ids and no_new_privs bits *)
+Definition nnp_bits (st:kstate) : list (N * bool) := map (fun th => (t_tid th, t_nnp th)) (ks_threads st).
+
+(** the state in which seccomp(2) is entered by thread [t] *)
+Definition pre_seccomp (st:kstate) (t:N) (f:filt) : kstate :=
+  if f_nnp f then prctl_set_nnp st t else st.
+
+(** what LoadFilter hands to the kernel for the instruction list [p] *)
+Definition fprog (p:list instr) : option (N * list sock_filter) := Some (fprog_len p, map encode p).
+
+Lemma sec_arg_fprog : forall p, sec_arg p = fprog p.
+Proof. intro p. unfold sec_arg, fprog, xcount, raw_of, fprog_len. rewrite map_length. reflexivity. Qed.
+
+Lemma do_prctl_nnp : forall st t,
+  do_prctl st t PR_SET_NO_NEW_PRIVS 1 0 0 0 =
+  match find_thread st t with Some _ => (prctl_set_nnp st t, 0, 0) | None => (st, MINUS1, ESRCH) end.
+Proof. intros. unfold do_prctl. destruct (find_thread st t); reflexivity. Qed.
+
+Lemma prctl_set_nnp_stacks : forall st t, stacks (prctl_set_nnp st t) = stacks st.
+Proof.
+  intros. unfold stacks, prctl_set_nnp, set_threads, map_thread. cbn [ks_threads].
+  rewrite map_map. apply map_ext. intro a. destruct (_ =? _); reflexivity.
+Qed.
+
+Lemma prctl_set_nnp_wf : forall st t, wf st -> wf (prctl_set_nnp st t).
+Proof.
+  intros st t [Z A B C].
+  constructor; unfold tids, prctl_set_nnp, set_threads, map_thread in *; cbn [ks_threads ks_next_tid ks_next_fid].
+  - assumption.
+  - rewrite map_map. erewrite map_ext; [exact A|]. intro a. destruct (_ =? _); reflexivity.
+  - rewrite Forall_forall in *. intros x Hx. apply in_map_iff in Hx. destruct Hx as [a [<- Ha]].
+    specialize (B a Ha). destruct (_ =? _); cbn; assumption.
+  - rewrite Forall_forall in *. intros x Hx. apply in_map_iff in Hx. destruct Hx as [a [<- Ha]].
+    specialize (C a Ha). destruct (_ =? _); cbn; assumption.
+Qed.
+
+Lemma prctl_set_nnp_find : forall st t t',
+  find_thread (prctl_set_nnp st t) t' =
+  option_map (fun th => if t_tid th =? t then with_nnp th true else th) (find_thread st t').
+Proof.
+  intros st t t'. unfold find_thread, prctl_set_nnp, set_threads, map_thread. cbn [ks_threads].
+  induction (ks_threads st) as [|a ts IH]; cbn [map find_thread_in option_map]; [reflexivity|].
+  destruct (t_tid a =? t) eqn:E; cbn [with_nnp t_tid]; destruct (t_tid a =? t') eqn:E'; cbn [option_map];
+    try rewrite E; auto.
+Qed.
+
+(** a thread that is not live cannot enter the kernel: the model answers ESRCH and changes nothing *)
+Lemma do_seccomp_dead : forall st t op fl pr, find_thread st t = None -> do_seccomp st t op fl pr = (st, MINUS1, ESRCH).
+Proof. intros. unfold do_seccomp. rewrite H. reflexivity. Qed.
+
+Section OneStep.
+Variable load : kworld -> filt -> kworld * lres.
+Hypothesis Hload : load_spec kstate do_seccomp do_prctl load.
+
+(** [load_spec] with the prctl step resolved *)
+Lemma load_step : forall w f, wf_filt f -> exists j,
+  let t := thread_at kstate w j in
+  let w' := fst (load w f) in
+  same_goroutine kstate w w' /\
+  match f_prog f with
+  | Error _ => w_k w' = w_k w /\ snd (load w f) = LErr /\ w_log w' = w_log w
+  | Ok p =>
+    let st1 := pre_seccomp (w_k w) t f in
+    let r := do_seccomp st1 t SECCOMP_SET_MODE_FILTER (f_flag f) (fprog p) in
+    (f_nnp f = true /\ find_thread (w_k w) t = None /\ w_k w' = w_k w /\ snd (load w f) = LErr /\ w_log w' = w_log w)
+    \/
+    ((f_nnp f = true -> live (w_k w) t) /\
+     w_k w' = fst (fst r) /\
+     snd (load w f) = (if (snd r =? 0) && ((snd (fst r) =? 0) || negb (has_flag (f_flag f) FLAG_TSYNC)) then LNil else LErr) /\
+     w_log w' = (t, SECCOMP_SET_MODE_FILTER, f_flag f, fprog p) :: w_log w)
+  end.
+Proof.
+  intros w f Wf. destruct (Hload w f) as [j [Hk [Hr [Hl Hg]]]]. cbv zeta in *. exists j.
+  split; [exact Hg|]. clear Hg.
+  unfold ref_load, ref_install in *. unfold wf_filt in Wf.
+  rewrite (N.mod_small (f_flag f)) in * by lia.
+  destruct (f_prog f) as [p|e].
+  2:{ cbn [fst snd] in *. rewrite app_nil_l in Hl. auto. }
+  rewrite sec_arg_fprog in *. unfold pre_seccomp, num_eqb, has_flag in *.
+  destruct (f_nnp f).
+  - rewrite do_prctl_nnp in *.
+    destruct (find_thread (w_k w) (thread_at kstate w j)) eqn:Ef; cbn [fst snd] in *.
+    + right. change (0 =? 0) with true in *. cbv iota in *. cbn [fst snd] in *.
+      split; [intros _; eexists; eassumption|].
+      rewrite negb_involutive. auto.
+    + left. change (ESRCH =? 0) with false in *. cbv iota in *. cbn [fst snd] in *.
+      rewrite app_nil_l in Hl. auto.
+  - right. cbn [fst snd] in *. split; [discriminate|]. rewrite negb_involutive. auto.
+Qed.
+
+(** C09: nil only if the new filter is in force *)
+Theorem load_nil_in_force_step : forall w f,
+  wf (w_k w) -> wf_filt f ->
+  snd (load w f) = LNil ->
+  exists j p, f_prog f = Ok p /\
+    let t := thread_at kstate w j in
+    let st1 := pre_seccomp (w_k w) t f in
+    let st' := w_k (fst (load w f)) in
+    let fid := ks_next_fid st1 in
+    has_top st' t fid /\ fresh_fid st1 fid /\ stacks st1 = stacks (w_k w) /\
+    top_prog st' t = Some (firstn (N.to_nat (fprog_len p)) (map encode p)) /\
+    (has_flag (f_flag f) FLAG_TSYNC = true -> all_have_top st' fid) /\
+    w_log (fst (load w f)) = (t, SECCOMP_SET_MODE_FILTER, f_flag f, fprog p) :: w_log w.
+Proof.
+  intros w f W Wf Hnil.
+  destruct (load_step w f Wf) as [j [_ H]]. cbv zeta in H. exists j.
+  destruct (f_prog f) as [p|] eqn:Ep.
+  2:{ destruct H as [_ [H _]]. rewrite H in Hnil. discriminate. }
+  exists p. split; [reflexivity|]. cbv zeta.
+  destruct H as [[_ [_ [_ [H _]]]]|[_ [Hk [Hr Hl]]]]; [rewrite H in Hnil; discriminate|].
+  set (t := thread_at kstate w j) in *.
+  set (st1 := pre_seccomp (w_k w) t f) in *.
+  assert (W1: wf st1) by (unfold st1, pre_seccomp; destruct (f_nnp f); [apply prctl_set_nnp_wf|]; assumption).
+  assert (S1: stacks st1 = stacks (w_k w)) by (unfold st1, pre_seccomp; destruct (f_nnp f); [apply prctl_set_nnp_stacks|reflexivity]).
+  destruct (do_seccomp st1 t SECCOMP_SET_MODE_FILTER (f_flag f) (fprog p)) as [[st2 r1] e2] eqn:Es.
+  cbn [fst snd] in *. rewrite Hr in Hnil.
+  destruct (e2 =? 0) eqn:Ee; [|discriminate Hnil]. apply N.eqb_eq in Ee. subst e2. cbn [andb] in Hnil.
+  destruct (do_seccomp_filter_cases _ _ _ _ _ _ _ Wf Es)
+    as [[_ Hc]|[[_ [_ [HT [caller [Hfind Hun]]]]]|[_ [caller [len [arr [Hfind [Hprog [Hst' [Hr1 [_ Hsync]]]]]]]]]]].
+  - contradiction Hc; reflexivity.
+  - (* refused thread-sync: r1 is a thread id, never 0 *)
+    exfalso. rewrite HT in Hnil. cbn [negb] in Hnil. rewrite orb_false_r in Hnil.
+    destruct (r1 =? 0) eqn:E0; [|discriminate Hnil]. apply N.eqb_eq in E0. subst r1.
+    apply first_unsyncable_in in Hun. exact (wf_tid_nonzero _ _ W1 Hun eq_refl).
+  - unfold fprog in Hprog. inversion Hprog; subst len arr. clear Hprog.
+    apply find_in in Hfind. destruct Hfind as [Hin Htid].
+    rewrite Hk, Hst'.
+    pose proof (attach_threads_conv st1 caller (f_flag f) (firstn (N.to_nat (fprog_len p)) (map encode p)) caller Hin) as Hc.
+    rewrite N.eqb_refl in Hc.
+    repeat split.
+    + exists (attached_thread caller (ks_next_fid st1)). repeat split; [exact Hc|cbn; exact Htid].
+    + pose proof (wf_fid _ W1) as F. unfold fresh_fid. rewrite Forall_forall in *. intros th Hth Hi.
+      specialize (F th Hth). rewrite Forall_forall in F. specialize (F _ Hi). lia.
+    + exact S1.
+    + unfold top_prog, find_thread.
+      destruct (in_find _ _ Hc) as [th' Hth'].
+      cbn [attached_thread with_filters t_tid] in Hth'. rewrite Htid in Hth'.
+      destruct (find_in _ _ _ Hth') as [Hin' Htid'].
+      apply attach_threads in Hin'. destruct Hin' as [th0 [Hin0 Heq]].
+      assert (E0: t_tid th0 = t_tid caller).
+      { destruct (t_tid th0 =? t_tid caller) eqn:E; [apply N.eqb_eq; exact E|].
+        exfalso. subst th'. destruct (has_flag (f_flag f) FLAG_TSYNC); cbn in Htid'; rewrite Htid' in E;
+          rewrite Htid in E; rewrite N.eqb_refl in E; discriminate. }
+      rewrite E0, N.eqb_refl in Heq. subst th'. rewrite Hth'. cbn [attached_thread with_filters t_filters].
+      unfold attach. cbn [ks_progs find fst snd]. rewrite N.eqb_refl. reflexivity.
+    + intro HT. unfold all_have_top. rewrite Forall_forall. intros th' Hth'.
+      apply attach_threads in Hth'. destruct Hth' as [th [_ ->]]. rewrite HT.
+      destruct (t_tid th =? t_tid caller); reflexivity.
+    + exact Hl.
+Qed.
+
+Lemma attach_changes : forall st caller flags p, attach st caller flags p <> st.
+Proof. intros st caller flags p H. apply (f_equal ks_next_fid) in H. unfold attach in H. cbn in H. lia. Qed.
+
+(** C09: whenever the kernel attaches nothing (its state is unchanged: an errno, or the positive thread id of a
+    refused thread-sync), LoadFilter returns an error and no thread's filter stack has changed *)
+Theorem load_unattached_is_error_step : forall w f p,
+  wf (w_k w) -> wf_filt f -> f_prog f = Ok p ->
+  exists j, let t := thread_at kstate w j in
+  let st1 := pre_seccomp (w_k w) t f in
+  fst (fst (do_seccomp st1 t SECCOMP_SET_MODE_FILTER (f_flag f) (fprog p))) = st1 ->
+  snd (load w f) = LErr /\ stacks (w_k (fst (load w f))) = stacks (w_k w).
+Proof.
+  intros w f p W Wf Ep. destruct (load_step w f Wf) as [j [_ H]]. cbv zeta in H. exists j. cbv zeta. intro Hun.
+  rewrite Ep in H.
+  destruct H as [[_ [_ [Hk [Hr _]]]]|[_ [Hk [Hr _]]]]; [rewrite Hk; auto|].
+  set (t := thread_at kstate w j) in *. set (st1 := pre_seccomp (w_k w) t f) in *.
+  assert (W1: wf st1) by (unfold st1, pre_seccomp; destruct (f_nnp f); [apply prctl_set_nnp_wf|]; assumption).
+  assert (S1: stacks st1 = stacks (w_k w)) by (unfold st1, pre_seccomp; destruct (f_nnp f); [apply prctl_set_nnp_stacks|reflexivity]).
+  destruct (do_seccomp st1 t SECCOMP_SET_MODE_FILTER (f_flag f) (fprog p)) as [[st2 r1] e2] eqn:Es.
+  cbn [fst snd] in *. rewrite Hun in *. rewrite Hk. split; [|exact S1]. rewrite Hr.
+  destruct (do_seccomp_filter_cases _ _ _ _ _ _ _ Wf Es)
+    as [[_ Hc]|[[_ [-> [HT [caller [Hfind Hu]]]]]|[_ [caller [len [arr [_ [_ [Hst' _]]]]]]]]].
+  - destruct (e2 =? 0) eqn:E; [apply N.eqb_eq in E; contradiction|reflexivity].
+  - rewrite HT. cbn [negb]. rewrite orb_false_r.
+    destruct (r1 =? 0) eqn:E0; [|reflexivity]. apply N.eqb_eq in E0. subst r1.
+    apply first_unsyncable_in in Hu. exfalso. exact (wf_tid_nonzero _ _ W1 Hu eq_refl).
+  - exfalso. symmetry in Hst'. exact (attach_changes _ _ _ _ Hst').
+Qed.
+
+(** C09: a load that fails before reaching the kernel changes nothing *)
+Theorem assemble_fail_no_effect_step : forall w f e,
+  f_prog f = Error e ->
+  w_k (fst (load w f)) = w_k w /\ snd (load w f) = LErr /\ w_log (fst (load w f)) = w_log w.
+Proof.
+  intros w f e Ep. destruct (Hload w f) as [j [Hk [Hr [Hl _]]]]. cbv zeta in *.
+  unfold ref_load in *. rewrite Ep in *. cbn [fst snd] in *. rewrite app_nil_l in Hl. auto.
+Qed.
+
+Lemma prctl_set_nnp_other : forall st t th',
+  In th' (ks_threads (prctl_set_nnp st t)) -> t_tid th' <> t -> In th' (ks_threads st).
+Proof.
+  intros st t th' H Hne. unfold prctl_set_nnp, set_threads, map_thread in H. cbn [ks_threads] in H.
+  apply in_map_iff in H. destruct H as [a [<- Ha]].
+  destruct (t_tid a =? t) eqn:E; [|exact Ha].
+  exfalso. apply Hne. cbn. apply N.eqb_eq. exact E.
+Qed.
+
+Lemma prctl_set_nnp_tids : forall st t, tids (prctl_set_nnp st t) = tids st.
+Proof.
+  intros. unfold tids, prctl_set_nnp, set_threads, map_thread. cbn [ks_threads].
+  rewrite map_map. apply map_ext. intro a. destruct (_ =? _); reflexivity.
+Qed.
+
+(** every kernel state LoadFilter can leave behind: unchanged, after the prctl, or after an attach *)
+Lemma load_outcomes : forall w f, wf_filt f -> exists j,
+  let t := thread_at kstate w j in
+  let st' := w_k (fst (load w f)) in
+  let st1 := pre_seccomp (w_k w) t f in
+  st' = w_k w \/ st' = st1 \/
+  (exists caller p, f_prog f = Ok p /\ find_thread st1 t = Some caller /\
+     st' = attach st1 caller (f_flag f) (firstn (N.to_nat (fprog_len p)) (map encode p)) /\
+     (has_flag (f_flag f) FLAG_TSYNC = true -> first_unsyncable caller (ks_threads st1) = None)).
+Proof.
+  intros w f Wf. destruct (load_step w f Wf) as [j [_ H]]. cbv zeta in H. exists j. cbv zeta.
+  destruct (f_prog f) as [p|e] eqn:Ep; [|left; apply H].
+  destruct H as [[_ [_ [Hk _]]]|[_ [Hk _]]]; [left; exact Hk|].
+  destruct (do_seccomp (pre_seccomp (w_k w) (thread_at kstate w j) f) (thread_at kstate w j)
+              SECCOMP_SET_MODE_FILTER (f_flag f) (fprog p)) as [[st2 r1] e2] eqn:Es.
+  cbn [fst] in Hk.
+  destruct (do_seccomp_filter_cases _ _ _ _ _ _ _ Wf Es)
+    as [[-> _]|[[-> _]|[_ [caller [len [arr [Hfind [Hprog [Hst' [_ [_ Hs]]]]]]]]]]].
+  - right; left; exact Hk.
+  - right; left; exact Hk.
+  - right; right. unfold fprog in Hprog. inversion Hprog; subst len arr.
+    exists caller, p. rewrite Hk. auto.
+Qed.
+
+(** C10: without thread-sync every other thread is left exactly as it was *)
+Theorem no_tsync_untouched_step : forall w f,
+  wf_filt f -> has_flag (f_flag f) FLAG_TSYNC = false ->
+  exists j, let t := thread_at kstate w j in
+  tids (w_k (fst (load w f))) = tids (w_k w) /\
+  forall th', In th' (ks_threads (w_k (fst (load w f)))) -> t_tid th' <> t -> In th' (ks_threads (w_k w)).
+Proof.
+  intros w f Wf HT. destruct (load_outcomes w f Wf) as [j H]. cbv zeta in H. exists j. cbv zeta.
+  set (t := thread_at kstate w j) in *.
+  assert (P1: tids (pre_seccomp (w_k w) t f) = tids (w_k w))
+    by (unfold pre_seccomp; destruct (f_nnp f); [apply prctl_set_nnp_tids|reflexivity]).
+  assert (P2: forall th', In th' (ks_threads (pre_seccomp (w_k w) t f)) -> t_tid th' <> t -> In th' (ks_threads (w_k w)))
+    by (unfold pre_seccomp; destruct (f_nnp f); [apply prctl_set_nnp_other|auto]).
+  destruct H as [->|[->|[caller [p [_ [Hfind [-> _]]]]]]]; [auto|auto|].
+  split; [rewrite attach_tids; exact P1|].
+  intros th' Hin Hne. apply attach_threads in Hin. destruct Hin as [th [Hth ->]].
+  apply find_in in Hfind. destruct Hfind as [_ Htid].
+  rewrite HT in *. destruct (t_tid th =? t_tid caller) eqn:E.
+  - exfalso. apply Hne. cbn. exact Htid.
+  - apply P2; [exact Hth|]. intro Hc. rewrite <- Htid in Hc. rewrite Hc, N.eqb_refl in E. discriminate.
+Qed.
+
+(** C10: the flag word, and the program, reach the kernel unmodified *)
+Theorem flag_passthrough_step : forall w f,
+  wf_filt f ->
+  w_log (fst (load w f)) = w_log w \/
+  exists t p, f_prog f = Ok p /\
+    w_log (fst (load w f)) = (t, SECCOMP_SET_MODE_FILTER, f_flag f, Some (fprog_len p, map encode p)) :: w_log w.
+Proof.
+  intros w f Wf. destruct (load_step w f Wf) as [j [_ H]]. cbv zeta in H.
+  destruct (f_prog f) as [p|e]; [|left; apply H].
+  destruct H as [[_ [_ [_ [_ Hl]]]]|[_ [_ [_ Hl]]]]; [left; exact Hl|].
+  right. exists (thread_at kstate w j), p. split; [reflexivity|exact Hl].
+Qed.
+
+(** C11: the bit is set before the install and on the thread that installs *)
+Theorem nnp_before_install_step : forall w f p,
+  wf_filt f -> f_nnp f = true -> f_prog f = Ok p ->
+  exists j, let t := thread_at kstate w j in
+  live (w_k w) t ->
+  let st1 := prctl_set_nnp (w_k w) t in
+  (exists caller, find_thread st1 t = Some caller /\ t_nnp caller = true) /\
+  w_k (fst (load w f)) = fst (fst (do_seccomp st1 t SECCOMP_SET_MODE_FILTER (f_flag f) (fprog p))) /\
+  snd (load w f) = (let r := do_seccomp st1 t SECCOMP_SET_MODE_FILTER (f_flag f) (fprog p) in
+                    if (snd r =? 0) && ((snd (fst r) =? 0) || negb (has_flag (f_flag f) FLAG_TSYNC)) then LNil else LErr).
+Proof.
+  intros w f p Wf Hn Ep. destruct (load_step w f Wf) as [j [_ H]]. cbv zeta in H. exists j. cbv zeta.
+  intros [th Hth]. rewrite Ep in H. unfold pre_seccomp in H. rewrite Hn in H.
+  destruct H as [[_ [Hdead _]]|[_ [Hk [Hr _]]]]; [rewrite Hdead in Hth; discriminate|].
+  split; [|auto].
+  rewrite prctl_set_nnp_find, Hth. cbn [option_map].
+  apply find_in in Hth. destruct Hth as [_ ->]. rewrite N.eqb_refl. eexists; split; [reflexivity|reflexivity].
+Qed.
+
+(** what makes the kernel accept the attach, apart from the privilege test *)
+Definition attachable (st:kstate) (caller:thread) (flags:N) (p:list instr) : Prop :=
+  flags_ok flags = true /\ has_flag flags FLAG_NEW_LISTENER = false /\
+  0 < fprog_len p /\ fprog_len p <= BPF_MAXINSNS /\
+  kernel_check (firstn (N.to_nat (fprog_len p)) (map encode p)) = true /\
+  t_strict caller = false /\
+  path_len st caller (fprog_len p) <= MAX_INSNS_PER_PATH /\
+  (has_flag flags FLAG_TSYNC = true -> first_unsyncable caller (ks_threads st) = None).
+
+Lemma fprog_len_le : forall p, fprog_len p <= N.of_nat (List.length (map encode p)).
+Proof. intro p. unfold fprog_len. rewrite map_length. apply N.mod_le. discriminate. Qed.
+
+Lemma do_seccomp_attaches : forall st t caller flags p,
+  flags < 4294967296 -> find_thread st t = Some caller ->
+  t_nnp caller || t_priv caller = true -> attachable st caller flags p ->
+  do_seccomp st t SECCOMP_SET_MODE_FILTER flags (fprog p) =
+  (attach st caller flags (firstn (N.to_nat (fprog_len p)) (map encode p)), 0, 0).
+Proof.
+  intros st t caller flags p Hf Hfind Hpriv [A1 [A2 [A3 [A4 [A5 [A6 [A7 A8]]]]]]].
+  unfold do_seccomp. rewrite (N.mod_small flags) by exact Hf. rewrite Hfind.
+  change (SECCOMP_SET_MODE_FILTER mod 4294967296 =? SECCOMP_SET_MODE_STRICT) with false.
+  change (SECCOMP_SET_MODE_FILTER mod 4294967296 =? SECCOMP_SET_MODE_FILTER) with true. cbv iota.
+  unfold set_mode_filter, fprog, attach_r1. rewrite A1, A2, Hpriv, A5, A6. cbn [negb andb].
+  replace (fprog_len p =? 0) with false by (symmetry; apply N.eqb_neq; lia).
+  replace (BPF_MAXINSNS <? fprog_len p) with false by (symmetry; apply N.ltb_ge; exact A4).
+  replace (N.of_nat (List.length (map encode p)) <? fprog_len p) with false by (symmetry; apply N.ltb_ge; apply fprog_len_le).
+  replace (MAX_INSNS_PER_PATH <? path_len st caller (fprog_len p)) with false by (symmetry; apply N.ltb_ge; exact A7).
+  cbn [orb].
+  destruct (has_flag flags FLAG_TSYNC); [rewrite (A8 eq_refl)|]; reflexivity.
+Qed.
+
+(** C11: with NoNewPrivs requested a valid filter loads whatever the privileges and whatever the schedule *)
+Theorem unprivileged_can_load_step : forall w f p,
+  wf_filt f -> f_nnp f = true -> f_prog f = Ok p ->
+  exists j, let t := thread_at kstate w j in
+  forall caller, find_thread (w_k w) t = Some caller ->
+  attachable (prctl_set_nnp (w_k w) t) (with_nnp caller true) (f_flag f) p ->
+  snd (load w f) = LNil.
+Proof.
+  intros w f p Wf Hn Ep. destruct (nnp_before_install_step w f p Wf Hn Ep) as [j H]. cbv zeta in H.
+  exists j. cbv zeta. intros caller Hfind Hatt.
+  destruct (H (ex_intro _ caller Hfind)) as [_ [_ Hr]]. rewrite Hr.
+  assert (Hf1: find_thread (prctl_set_nnp (w_k w) (thread_at kstate w j)) (thread_at kstate w j) = Some (with_nnp caller true)).
+  { rewrite prctl_set_nnp_find, Hfind. cbn [option_map]. apply find_in in Hfind. destruct Hfind as [_ ->].
+    rewrite N.eqb_refl. reflexivity. }
+  rewrite (do_seccomp_attaches _ _ _ _ _ Wf Hf1 eq_refl Hatt). reflexivity.
+Qed.
+
+(** C11: not requested => every bit is left as it was, except that a successful thread-sync (the kernel's
+    doing) hands a bit the caller ALREADY had to the other threads *)
+Theorem nnp_untouched_step : forall w f,
+  wf_filt f -> f_nnp f = false ->
+  forall th', In th' (ks_threads (w_k (fst (load w f)))) ->
+  exists th, In th (ks_threads (w_k w)) /\ t_tid th = t_tid th' /\
+    (t_nnp th' = t_nnp th \/
+     (has_flag (f_flag f) FLAG_TSYNC = true /\ exists c, In c (ks_threads (w_k w)) /\ t_nnp c = true)).
+Proof.
+  intros w f Wf Hn th' Hin. destruct (load_outcomes w f Wf) as [j H]. cbv zeta in H.
+  unfold pre_seccomp in H. rewrite Hn in H.
+  destruct H as [E|[E|[caller [p [_ [Hfind [E Hs]]]]]]]; rewrite E in Hin;
+    [exists th'; split; [exact Hin|split; [reflexivity|left; reflexivity]]
+    |exists th'; split; [exact Hin|split; [reflexivity|left; reflexivity]]|].
+  apply attach_threads in Hin. destruct Hin as [th [Hth ->]]. apply find_in in Hfind. destruct Hfind as [Hc _].
+  destruct (t_tid th =? t_tid caller) eqn:Et.
+  - exists caller. apply N.eqb_eq in Et. cbn. auto.
+  - destruct (has_flag (f_flag f) FLAG_TSYNC) eqn:HT.
+    + exists th. split; [exact Hth|]. split; [reflexivity|]. cbn [with_nnp t_nnp].
+      destruct (t_nnp caller) eqn:Ec.
+      * right. split; [reflexivity|]. exists caller. auto.
+      * left. apply orb_false_r.
+    + exists th. auto.
+Qed.
+
+(** C11: not requested and no privilege => an error, and nothing is installed *)
+Theorem unprivileged_without_nnp_fails_step : forall w f,
+  wf (w_k w) -> wf_filt f -> f_nnp f = false ->
+  (forall th, In th (ks_threads (w_k w)) -> t_nnp th = false /\ t_priv th = false) ->
+  snd (load w f) = LErr /\ w_k (fst (load w f)) = w_k w.
+Proof.
+  intros w f W Wf Hn Hun. destruct (load_step w f Wf) as [j [_ H]]. cbv zeta in H.
+  destruct (f_prog f) as [p|e]; [|destruct H as [H1 [H2 _]]; auto].
+  unfold pre_seccomp in H. rewrite Hn in H.
+  destruct H as [[_ [_ [Hk [Hr _]]]]|[_ [Hk [Hr _]]]]; [auto|].
+  destruct (do_seccomp (w_k w) (thread_at kstate w j) SECCOMP_SET_MODE_FILTER (f_flag f) (fprog p)) as [[st2 r1] e2] eqn:Es.
+  cbn [fst snd] in *. rewrite Hk, Hr.
+  destruct (do_seccomp_filter_cases _ _ _ _ _ _ _ Wf Es)
+    as [[-> Hc]|[[-> [-> [HT [caller [Hfind Hu]]]]]|[_ [caller [len [arr [Hfind [_ [_ [_ [Hp _]]]]]]]]]]].
+  - split; [|reflexivity]. destruct (e2 =? 0) eqn:E; [apply N.eqb_eq in E; contradiction|reflexivity].
+  - split; [|reflexivity]. rewrite HT. cbn [negb]. rewrite orb_false_r.
+    destruct (r1 =? 0) eqn:E0; [|reflexivity]. apply N.eqb_eq in E0. subst r1.
+    apply first_unsyncable_in in Hu. exfalso. exact (wf_tid_nonzero _ _ W Hu eq_refl).
+  - exfalso. apply find_in in Hfind. destruct Hfind as [Hin _]. destruct (Hun _ Hin) as [A B].
+    rewrite A, B in Hp. discriminate.
+Qed.
+End OneStep.
+
+(** *** the ways the kernel declines (each leaves the state unchanged: see [load_unattached_is_error_step]) *)
+Lemma declines_unknown_flags : forall st t caller flags prog,
+  flags < 4294967296 -> find_thread st t = Some caller -> flags_ok flags = false ->
+  do_seccomp st t SECCOMP_SET_MODE_FILTER flags prog = (st, MINUS1, EINVAL).
+Proof.
+  intros. unfold do_seccomp. rewrite (N.mod_small flags) by assumption. rewrite H0.
+  change (SECCOMP_SET_MODE_FILTER mod 4294967296 =? SECCOMP_SET_MODE_STRICT) with false.
+  change (SECCOMP_SET_MODE_FILTER mod 4294967296 =? SECCOMP_SET_MODE_FILTER) with true. cbv iota.
+  unfold set_mode_filter. rewrite H1. reflexivity.
+Qed.
+
+Lemma declines_oversize : forall st t caller flags len arr,
+  flags < 4294967296 -> find_thread st t = Some caller -> flags_ok flags = true ->
+  len = 0 \/ BPF_MAXINSNS < len ->
+  do_seccomp st t SECCOMP_SET_MODE_FILTER flags (Some (len, arr)) = (st, MINUS1, EINVAL).
+Proof.
+  intros st t caller flags len arr Hf Hfind Hok Hlen. unfold do_seccomp. rewrite (N.mod_small flags) by assumption. rewrite Hfind.
+  change (SECCOMP_SET_MODE_FILTER mod 4294967296 =? SECCOMP_SET_MODE_STRICT) with false.
+  change (SECCOMP_SET_MODE_FILTER mod 4294967296 =? SECCOMP_SET_MODE_FILTER) with true. cbv iota.
+  unfold set_mode_filter. rewrite Hok. cbn [negb].
+  replace ((len =? 0) || (BPF_MAXINSNS <? len)) with true; [reflexivity|].
+  symmetry. apply orb_true_iff. destruct Hlen as [->|H]; [left; reflexivity|right; apply N.ltb_lt; exact H].
+Qed.
+
+Lemma declines_unprivileged : forall st t caller flags len arr,
+  flags < 4294967296 -> find_thread st t = Some caller -> flags_ok flags = true ->
+  0 < len -> len <= BPF_MAXINSNS -> t_nnp caller = false -> t_priv caller = false ->
+  do_seccomp st t SECCOMP_SET_MODE_FILTER flags (Some (len, arr)) = (st, MINUS1, EACCES).
+Proof.
+  intros st t caller flags len arr Hf Hfind Hok H0 H1 Hn Hp. unfold do_seccomp. rewrite (N.mod_small flags) by assumption. rewrite Hfind.
+  change (SECCOMP_SET_MODE_FILTER mod 4294967296 =? SECCOMP_SET_MODE_STRICT) with false.
+  change (SECCOMP_SET_MODE_FILTER mod 4294967296 =? SECCOMP_SET_MODE_FILTER) with true. cbv iota.
+  unfold set_mode_filter. rewrite Hok, Hn, Hp. cbn [negb orb].
+  replace (len =? 0) with false by (symmetry; apply N.eqb_neq; lia).
+  replace (BPF_MAXINSNS <? len) with false by (symmetry; apply N.ltb_ge; exact H1).
+  reflexivity.
+Qed.
+
+Lemma declines_bad_program : forall st t caller flags len arr,
+  flags < 4294967296 -> find_thread st t = Some caller -> flags_ok flags = true ->
+  0 < len -> len <= BPF_MAXINSNS -> t_nnp caller || t_priv caller = true -> len <= N.of_nat (List.length arr) ->
+  kernel_check (firstn (N.to_nat len) arr) = false ->
+  do_seccomp st t SECCOMP_SET_MODE_FILTER flags (Some (len, arr)) = (st, MINUS1, EINVAL).
+Proof.
+  intros st t caller flags len arr Hf Hfind Hok H0 H1 Hp Hl Hk. unfold do_seccomp. rewrite (N.mod_small flags) by assumption. rewrite Hfind.
+  change (SECCOMP_SET_MODE_FILTER mod 4294967296 =? SECCOMP_SET_MODE_STRICT) with false.
+  change (SECCOMP_SET_MODE_FILTER mod 4294967296 =? SECCOMP_SET_MODE_FILTER) with true. cbv iota.
+  unfold set_mode_filter. rewrite Hok, Hp, Hk. cbn [negb orb].
+  replace (len =? 0) with false by (symmetry; apply N.eqb_neq; lia).
+  replace (BPF_MAXINSNS <? len) with false by (symmetry; apply N.ltb_ge; exact H1).
+  replace (N.of_nat (List.length arr) <? len) with false by (symmetry; apply N.ltb_ge; exact Hl).
+  reflexivity.
+Qed.
+
+Lemma declines_thread_sync : forall st t caller flags p bad,
+  flags < 4294967296 -> find_thread st t = Some caller ->
+  t_nnp caller || t_priv caller = true ->
+  flags_ok flags = true -> has_flag flags FLAG_NEW_LISTENER = false ->
+  0 < fprog_len p -> fprog_len p <= BPF_MAXINSNS ->
+  kernel_check (firstn (N.to_nat (fprog_len p)) (map encode p)) = true ->
+  t_strict caller = false -> path_len st caller (fprog_len p) <= MAX_INSNS_PER_PATH ->
+  has_flag flags FLAG_TSYNC = true -> has_flag flags FLAG_TSYNC_ESRCH = false ->
+  first_unsyncable caller (ks_threads st) = Some bad ->
+  do_seccomp st t SECCOMP_SET_MODE_FILTER flags (fprog p) = (st, bad, 0).
+Proof.
+  intros st t caller flags p bad Hf Hfind Hpriv A1 A2 A3 A4 A5 A6 A7 HT HE Hu.
+  unfold do_seccomp. rewrite (N.mod_small flags) by exact Hf. rewrite Hfind.
+  change (SECCOMP_SET_MODE_FILTER mod 4294967296 =? SECCOMP_SET_MODE_STRICT) with false.
+  change (SECCOMP_SET_MODE_FILTER mod 4294967296 =? SECCOMP_SET_MODE_FILTER) with true. cbv iota.
+  unfold set_mode_filter, fprog. rewrite A1, A2, Hpriv, A5, A6, HT, Hu, HE. cbn [negb andb].
+  replace (fprog_len p =? 0) with false by (symmetry; apply N.eqb_neq; lia).
+  replace (BPF_MAXINSNS <? fprog_len p) with false by (symmetry; apply N.ltb_ge; exact A4).
+  replace (N.of_nat (List.length (map encode p)) <? fprog_len p) with false by (symmetry; apply N.ltb_ge; apply fprog_len_le).
+  replace (MAX_INSNS_PER_PATH <? path_len st caller (fprog_len p)) with false by (symmetry; apply N.ltb_ge; exact A7).
+  reflexivity.
+Qed.
+
+(** *** Supported() *)
+Lemma strict_probe : forall st t,
+  do_seccomp st t SECCOMP_SET_MODE_STRICT (1 mod 18446744073709551616) None =
+  match find_thread st t with Some _ => (st, MINUS1, EINVAL) | None => (st, MINUS1, ESRCH) end.
+Proof. intros. unfold do_seccomp. destruct (find_thread st t); reflexivity. Qed.
+
+Section Supported.
+Variable supp : kworld -> kworld * option bool.
+Hypothesis Hsupp : supp_spec kstate do_seccomp supp.
+
+(** C09: probing for support never changes process state (and answers true on this kernel model) *)
+Theorem supported_pure_step : forall w,
+  w_k (fst (supp w)) = w_k w /\
+  exists j, (live (w_k w) (thread_at kstate w j) -> snd (supp w) = Some true) /\
+    w_log (fst (supp w)) = (thread_at kstate w j, SECCOMP_SET_MODE_STRICT, 1, None) :: w_log w.
+Proof.
+  intro w. destruct (Hsupp w) as [j [Hk [Hr [Hl _]]]]. cbv zeta in Hk, Hr, Hl.
+  rewrite strict_probe in Hk, Hr. change (1 mod 18446744073709551616) with 1 in Hl.
+  split.
+  - etransitivity; [exact Hk|]. destruct (find_thread _ _); reflexivity.
+  - exists j. split; [|exact Hl]. intros [th Hth]. rewrite Hth in Hr. exact Hr.
+Qed.
+End Supported.
+
+(** ** 4. histories *)
+Lemma attach_wf : forall st t caller flags p, wf st -> find_thread st t = Some caller -> wf (attach st caller flags p).
+Proof.
+  intros st t caller flags p [Z A B C] Hfind. apply find_in in Hfind. destruct Hfind as [Hc _].
+  rewrite Forall_forall in B, C.
+  constructor.
+  - exact Z.
+  - rewrite attach_tids. exact A.
+  - rewrite Forall_forall. intros th' Hin. apply attach_threads in Hin. destruct Hin as [th [Hth ->]].
+    change (ks_next_tid (attach st caller flags p)) with (ks_next_tid st).
+    destruct (t_tid th =? t_tid caller); [exact (B _ Hc)|].
+    destruct (has_flag flags FLAG_TSYNC); exact (B _ Hth).
+  - rewrite Forall_forall. intros th' Hin. apply attach_threads in Hin. destruct Hin as [th [Hth ->]].
+    change (ks_next_fid (attach st caller flags p)) with (ks_next_fid st + 1).
+    assert (Hcal: Forall (fun f => f < ks_next_fid st + 1) (ks_next_fid st :: t_filters caller)).
+    { constructor; [lia|]. specialize (C _ Hc). rewrite Forall_forall in *. intros x Hx. specialize (C x Hx). lia. }
+    destruct (t_tid th =? t_tid caller); [exact Hcal|].
+    destruct (has_flag flags FLAG_TSYNC); [exact Hcal|].
+    specialize (C _ Hth). rewrite Forall_forall in *. intros x Hx. specialize (C x Hx). lia.
+Qed.
+
+Lemma clone_wf : forall st parent, wf st -> wf (fst (clone st parent)).
+Proof.
+  intros st parent W. unfold clone. destruct (find_thread st parent) as [p|] eqn:Ef; [|exact W].
+  destruct W as [Z A B C]. apply find_in in Ef. destruct Ef as [Hp _].
+  rewrite Forall_forall in B, C. cbn [fst].
+  constructor; unfold tids; cbn [ks_threads ks_next_tid ks_next_fid].
+  - lia.
+  - rewrite map_app. cbn [map t_tid].
+    assert (Hn: ~ In (ks_next_tid st) (tids st)).
+    { intro Hi. unfold tids in Hi. apply in_map_iff in Hi. destruct Hi as [th [E Hth]].
+      destruct (B _ Hth) as [_ Hlt]. lia. }
+    clear - A Hn. unfold tids in *. induction (map t_tid (ks_threads st)) as [|x l IH]; cbn.
+    + constructor; [intros []|constructor].
+    + inversion A; subst. constructor.
+      * intro Hi. apply in_app_or in Hi. destruct Hi as [Hi|[Hi|[]]]; [contradiction|]. apply Hn. left. symmetry. exact Hi.
+      * apply IH; [assumption|]. intro Hi. apply Hn. right. exact Hi.
+  - rewrite Forall_forall. intros th Hin. apply in_app_or in Hin. destruct Hin as [Hin|[<-|[]]].
+    + destruct (B _ Hin). split; [assumption|lia].
+    + cbn [t_tid]. split; [exact Z|lia].
+  - rewrite Forall_forall. intros th Hin. apply in_app_or in Hin. destruct Hin as [Hin|[<-|[]]].
+    + exact (C _ Hin).
+    + cbn [t_filters]. exact (C _ Hp).
+Qed.
+
+Lemma map_filter_tid : forall (ts:list thread) tid,
+  map t_tid (filter (fun t => negb (t_tid t =? tid)) ts) = filter (fun x => negb (x =? tid)) (map t_tid ts).
+Proof.
+  induction ts as [|a ts IH]; intro tid; cbn; [reflexivity|].
+  destruct (negb (t_tid a =? tid)); cbn; rewrite IH; reflexivity.
+Qed.
+
+Lemma exit_wf : forall st tid, wf st -> wf (exit_thread st tid).
+Proof.
+  intros st tid [Z A B C]. unfold exit_thread, set_threads.
+  constructor; unfold tids in *; cbn [ks_threads ks_next_tid ks_next_fid].
+  - exact Z.
+  - rewrite map_filter_tid. apply NoDup_filter. exact A.
+  - rewrite Forall_forall in *. intros x Hx. apply filter_In in Hx. apply B. tauto.
+  - rewrite Forall_forall in *. intros x Hx. apply filter_In in Hx. apply C. tauto.
+Qed.
+
+Lemma drop_priv_wf : forall st, wf st -> wf (drop_priv st).
+Proof.
+  intros st [Z A B C]. unfold drop_priv, set_threads.
+  constructor; unfold tids in *; cbn [ks_threads ks_next_tid ks_next_fid].
+  - exact Z.
+  - rewrite map_map. cbn. exact A.
+  - rewrite Forall_forall in *. intros x Hx. apply in_map_iff in Hx. destruct Hx as [a [<- Ha]]. cbn. exact (B _ Ha).
+  - rewrite Forall_forall in *. intros x Hx. apply in_map_iff in Hx. destruct Hx as [a [<- Ha]]. cbn. exact (C _ Ha).
+Qed.
+
+(** operations of a history; [sched] is the scheduler oracle for the goroutine that makes the call, [pinned]
+    says whether the caller holds runtime.LockOSThread already *)
+Inductive hop :=
+| HLoad (tid:N) (pinned:bool) (sched:nat -> N) (f:filt)
+| HSupported (tid:N) (pinned:bool) (sched:nat -> N)
+| HSpawn (parent:N)            (* the thread [parent] creates a thread (clone) *)
+| HExit (tid:N)
+| HDropPriv                    (* setuid to an unprivileged user *)
+| HBlock (tid:N)               (* the thread enters a blocking system call: no effect on seccomp state *)
+| HWake (tid:N).
+
+Definition mk_world (st:kstate) (tid:N) (pinned:bool) (sched:nat -> N) : kworld :=
+  {| w_k := st; w_cur := tid; w_pins := if pinned then 1%nat else 0%nat; w_sched := sched; w_step := 0%nat; w_log := [] |}.
+
+Definition op_ok (o:hop) : Prop := match o with HLoad _ _ _ f => wf_filt f | _ => True end.
+
+Section Histories.
+Variable load : kworld -> filt -> kworld * lres.
+Variable supp : kworld -> kworld * option bool.
+Hypothesis Hload : load_spec kstate do_seccomp do_prctl load.
+Hypothesis Hsupp : supp_spec kstate do_seccomp supp.
+
+Definition apply_op (st:kstate) (o:hop) : kstate :=
+  match o with
+  | HLoad tid pinned sched f => w_k (fst (load (mk_world st tid pinned sched) f))
+  | HSupported tid pinned sched => w_k (fst (supp (mk_world st tid pinned sched)))
+  | HSpawn parent => fst (clone st parent)
+  | HExit tid => exit_thread st tid
+  | HDropPriv => drop_priv st
+  | HBlock _ | HWake _ => st
+  end.
+
+Definition run_hist (st:kstate) (ops:list hop) : kstate := fold_left apply_op ops st.
+
+Lemma run_hist_snoc : forall st pre o, run_hist st (pre ++ [o]) = apply_op (run_hist st pre) o.
+Proof. intros. unfold run_hist. rewrite fold_left_app. reflexivity. Qed.
+
+Lemma run_hist_app : forall st a b, run_hist st (a ++ b) = run_hist (run_hist st a) b.
+Proof. intros. unfold run_hist. apply fold_left_app. Qed.
+
+Lemma pre_seccomp_wf : forall st t f, wf st -> wf (pre_seccomp st t f).
+Proof. intros. unfold pre_seccomp. destruct (f_nnp f); [apply prctl_set_nnp_wf|]; assumption. Qed.
+
+Lemma apply_op_wf : forall st o, wf st -> op_ok o -> wf (apply_op st o).
+Proof.
+  intros st o W Hok. destruct o as [tid pinned sched f|tid pinned sched|parent|tid| |tid|tid]; cbn [apply_op].
+  - destruct (load_outcomes load Hload (mk_world st tid pinned sched) f Hok) as [j H]. cbv zeta in H.
+    change (w_k (mk_world st tid pinned sched)) with st in H.
+    destruct H as [->|[->|[caller [p [_ [Hfind [-> _]]]]]]].
+    + exact W.
+    + apply pre_seccomp_wf; exact W.
+    + eapply attach_wf; [apply pre_seccomp_wf; exact W|exact Hfind].
+  - destruct (supported_pure_step supp Hsupp (mk_world st tid pinned sched)) as [-> _]. exact W.
+  - apply clone_wf; exact W.
+  - apply exit_wf; exact W.
+  - apply drop_priv_wf; exact W.
+  - exact W.
+  - exact W.
+Qed.
+
+(** every state a history can reach is well formed: the one-step theorems apply at every point of every history *)
+Theorem run_hist_wf : forall ops st, wf st -> Forall op_ok ops -> wf (run_hist st ops).
+Proof.
+  induction ops as [|o ops IH]; intros st W Hok; cbn [run_hist fold_left]; [exact W|].
+  inversion Hok; subst. apply IH; [apply apply_op_wf; assumption|assumption].
+Qed.
+
+(** *** C09 over histories *)
+Theorem load_nil_in_force : forall st0 pre tid pinned sched f,
+  wf st0 -> Forall op_ok pre -> wf_filt f ->
+  let w := mk_world (run_hist st0 pre) tid pinned sched in
+  snd (load w f) = LNil ->
+  exists j p, f_prog f = Ok p /\
+    let t := thread_at kstate w j in
+    let st1 := pre_seccomp (w_k w) t f in
+    let st' := run_hist st0 (pre ++ [HLoad tid pinned sched f]) in
+    let fid := ks_next_fid st1 in
+    has_top st' t fid /\ fresh_fid st1 fid /\ stacks st1 = stacks (w_k w) /\
+    top_prog st' t = Some (firstn (N.to_nat (fprog_len p)) (map encode p)) /\
+    (has_flag (f_flag f) FLAG_TSYNC = true -> all_have_top st' fid) /\
+    (pinned = true -> t = tid).
+Proof.
+  intros st0 pre tid pinned sched f W Hok Wf w Hnil.
+  destruct (load_nil_in_force_step load Hload w f (run_hist_wf _ _ W Hok) Wf Hnil) as [j [p [Ep H]]].
+  exists j, p. split; [exact Ep|]. cbv zeta in *.
+  rewrite run_hist_snoc. cbn [apply_op].
+  destruct H as [H1 [H2 [H3 [H4 [H5 _]]]]]. repeat split; try assumption.
+  intros ->. reflexivity.
+Qed.
+
+Theorem load_unattached_is_error : forall st0 pre tid pinned sched f p,
+  wf st0 -> Forall op_ok pre -> wf_filt f -> f_prog f = Ok p ->
+  let w := mk_world (run_hist st0 pre) tid pinned sched in
+  exists j, let t := thread_at kstate w j in
+  let st1 := pre_seccomp (w_k w) t f in
+  fst (fst (do_seccomp st1 t SECCOMP_SET_MODE_FILTER (f_flag f) (fprog p))) = st1 ->
+  snd (load w f) = LErr /\
+  stacks (run_hist st0 (pre ++ [HLoad tid pinned sched f])) = stacks (run_hist st0 pre).
+Proof.
+  intros st0 pre tid pinned sched f p W Hok Wf Ep w.
+  destruct (load_unattached_is_error_step load Hload w f p (run_hist_wf _ _ W Hok) Wf Ep) as [j H].
+  exists j. cbv zeta in *. intro Hun. destruct (H Hun) as [H1 H2]. split; [exact H1|].
+  rewrite run_hist_snoc. cbn [apply_op]. exact H2.
+Qed.
+
+Theorem assemble_fail_no_effect : forall st0 pre tid pinned sched f e,
+  f_prog f = Error e ->
+  let w := mk_world (run_hist st0 pre) tid pinned sched in
+  snd (load w f) = LErr /\ w_log (fst (load w f)) = [] /\
+  run_hist st0 (pre ++ [HLoad tid pinned sched f]) = run_hist st0 pre.
+Proof.
+  intros st0 pre tid pinned sched f e Ep w.
+  destruct (assemble_fail_no_effect_step load Hload w f e Ep) as [H1 [H2 H3]].
+  split; [exact H2|]. split; [exact H3|].
+  rewrite run_hist_snoc. cbn [apply_op]. exact H1.
+Qed.
+
+Theorem supported_pure : forall st0 pre tid pinned sched,
+  run_hist st0 (pre ++ [HSupported tid pinned sched]) = run_hist st0 pre.
+Proof.
+  intros. rewrite run_hist_snoc. cbn [apply_op].
+  apply (supported_pure_step supp Hsupp).
+Qed.
+
+(** *** C10 over histories *)
+Definition covered (fid:N) (st:kstate) : Prop := Forall (fun th => In fid (t_filters th)) (ks_threads st).
+
+Lemma pre_seccomp_filters : forall st t f th1, In th1 (ks_threads (pre_seccomp st t f)) ->
+  exists c, In c (ks_threads st) /\ t_filters c = t_filters th1.
+Proof.
+  intros st t f th1 H. unfold pre_seccomp in H. destruct (f_nnp f); [|eauto].
+  unfold prctl_set_nnp, set_threads, map_thread in H. cbn [ks_threads] in H.
+  apply in_map_iff in H. destruct H as [a [<- Ha]]. exists a. split; [exact Ha|]. destruct (_ =? _); reflexivity.
+Qed.
+
+(** filters are never removed: every thread after an operation carries at least the stack of some thread
+    that existed before it (itself, its creator, or - after a thread-sync - the loading thread) *)
+Lemma op_filters_mono : forall st o th', op_ok o ->
+  In th' (ks_threads (apply_op st o)) ->
+  exists c, In c (ks_threads st) /\ incl (t_filters c) (t_filters th').
+Proof.
+  intros st o th' Hok Hin. destruct o as [tid pinned sched f|tid pinned sched|parent|tid| |tid|tid]; cbn [apply_op] in Hin.
+  - destruct (load_outcomes load Hload (mk_world st tid pinned sched) f Hok) as [j H]. cbv zeta in H.
+    change (w_k (mk_world st tid pinned sched)) with st in H.
+    destruct H as [E|[E|[caller [p [_ [Hfind [E _]]]]]]]; rewrite E in Hin.
+    + exists th'. split; [exact Hin|apply incl_refl].
+    + destruct (pre_seccomp_filters _ _ _ _ Hin) as [c [Hc Ec]]. exists c. split; [exact Hc|]. rewrite Ec. apply incl_refl.
+    + apply attach_threads in Hin. destruct Hin as [th [Hth ->]].
+      apply find_in in Hfind. destruct Hfind as [Hcal _].
+      destruct (pre_seccomp_filters _ _ _ _ Hcal) as [c [Hc Ec]].
+      destruct (pre_seccomp_filters _ _ _ _ Hth) as [c2 [Hc2 Ec2]].
+      destruct (t_tid th =? t_tid caller).
+      * exists c. split; [exact Hc|]. rewrite Ec. cbn. apply incl_tl, incl_refl.
+      * destruct (has_flag (f_flag f) FLAG_TSYNC).
+        -- exists c. split; [exact Hc|]. rewrite Ec. cbn. apply incl_tl, incl_refl.
+        -- exists c2. split; [exact Hc2|]. rewrite Ec2. apply incl_refl.
+  - destruct (supported_pure_step supp Hsupp (mk_world st tid pinned sched)) as [E _]. rewrite E in Hin.
+    exists th'. split; [exact Hin|apply incl_refl].
+  - unfold clone in Hin. destruct (find_thread st parent) as [p|] eqn:Ef; cbn [fst ks_threads] in Hin.
+    + apply in_app_or in Hin. destruct Hin as [Hin|[<-|[]]].
+      * exists th'. split; [exact Hin|apply incl_refl].
+      * apply find_in in Ef. exists p. split; [apply Ef|apply incl_refl].
+    + exists th'. split; [exact Hin|apply incl_refl].
+  - unfold exit_thread, set_threads in Hin. cbn [ks_threads] in Hin. apply filter_In in Hin.
+    exists th'. split; [apply Hin|apply incl_refl].
+  - unfold drop_priv, set_threads in Hin. cbn [ks_threads] in Hin. apply in_map_iff in Hin. destruct Hin as [a [<- Ha]].
+    exists a. split; [exact Ha|apply incl_refl].
+  - exists th'. split; [exact Hin|apply incl_refl].
+  - exists th'. split; [exact Hin|apply incl_refl].
+Qed.
+
+Theorem covered_preserved : forall fid ops st, Forall op_ok ops -> covered fid st -> covered fid (run_hist st ops).
+Proof.
+  intros fid. induction ops as [|o ops IH]; intros st Hok Hc; cbn [run_hist fold_left]; [exact Hc|].
+  inversion Hok; subst. apply IH; [assumption|].
+  unfold covered in *. rewrite Forall_forall in *. intros th' Hin.
+  destruct (op_filters_mono st o th' H1 Hin) as [c [Hcin Hincl]]. apply Hincl. exact (Hc _ Hcin).
+Qed.
+
+(** thread-sync requested and nil returned: the new filter is in the stack of every thread that exists at
+    that moment AND of every thread that exists after any continuation of the history (threads spawned later
+    by any thread, whatever was blocked or running) *)
+Theorem tsync_covers_all : forall st0 pre tid pinned sched f post,
+  wf st0 -> Forall op_ok pre -> wf_filt f -> Forall op_ok post ->
+  has_flag (f_flag f) FLAG_TSYNC = true ->
+  snd (load (mk_world (run_hist st0 pre) tid pinned sched) f) = LNil ->
+  exists fid,
+    (forall th, In th (ks_threads (run_hist st0 pre)) -> ~ In fid (t_filters th)) /\
+    all_have_top (run_hist st0 (pre ++ [HLoad tid pinned sched f])) fid /\
+    covered fid (run_hist st0 (pre ++ HLoad tid pinned sched f :: post)).
+Proof.
+  intros st0 pre tid pinned sched f post W Hok Wf Hpost HT Hnil.
+  destruct (load_nil_in_force st0 pre tid pinned sched f W Hok Wf Hnil) as [j [p [_ H]]]. cbv zeta in H.
+  destruct H as [_ [Hfresh [Hst [_ [Hall _]]]]].
+  eexists. split; [|split; [exact (Hall HT)|]].
+  - intros th Hth Hi. unfold fresh_fid in Hfresh. rewrite Forall_forall in Hfresh.
+    change (w_k (mk_world (run_hist st0 pre) tid pinned sched)) with (run_hist st0 pre) in *.
+    assert (Hin: In (t_tid th, t_filters th) (stacks (run_hist st0 pre))).
+    { unfold stacks. apply in_map_iff. exists th. auto. }
+    rewrite <- Hst in Hin. unfold stacks in Hin. apply in_map_iff in Hin. destruct Hin as [th1 [E1 Hth1]].
+    inversion E1. apply (Hfresh th1 Hth1). rewrite H1. exact Hi.
+  - replace (pre ++ HLoad tid pinned sched f :: post) with ((pre ++ [HLoad tid pinned sched f]) ++ post)
+      by (rewrite <- app_assoc; reflexivity).
+    rewrite run_hist_app. apply covered_preserved; [exact Hpost|].
+    specialize (Hall HT). unfold covered, all_have_top in *. rewrite Forall_forall in *. intros th Hth.
+    specialize (Hall th Hth). destruct (t_filters th); [discriminate|]. inversion Hall. left. reflexivity.
+Qed.
+
+Theorem no_tsync_untouched : forall st0 pre tid pinned sched f,
+  wf_filt f -> has_flag (f_flag f) FLAG_TSYNC = false ->
+  let w := mk_world (run_hist st0 pre) tid pinned sched in
+  exists j, let t := thread_at kstate w j in
+  let st' := run_hist st0 (pre ++ [HLoad tid pinned sched f]) in
+  tids st' = tids (run_hist st0 pre) /\
+  (forall th', In th' (ks_threads st') -> t_tid th' <> t -> In th' (ks_threads (run_hist st0 pre))) /\
+  (pinned = true -> t = tid).
+Proof.
+  intros st0 pre tid pinned sched f Wf HT w.
+  destruct (no_tsync_untouched_step load Hload w f Wf HT) as [j [H1 H2]]. exists j. cbv zeta.
+  rewrite run_hist_snoc. cbn [apply_op].
+  split; [exact H1|]. split; [exact H2|]. intros ->. reflexivity.
+Qed.
+
+Theorem flag_passthrough : forall st0 pre tid pinned sched f,
+  wf_filt f ->
+  let w := mk_world (run_hist st0 pre) tid pinned sched in
+  w_log (fst (load w f)) = [] \/
+  exists t p, f_prog f = Ok p /\
+    w_log (fst (load w f)) = [(t, SECCOMP_SET_MODE_FILTER, f_flag f, Some (fprog_len p, map encode p))].
+Proof. intros. apply (flag_passthrough_step load Hload w f H). Qed.
+
+(** *** C11 over histories *)
+Theorem nnp_before_install_same_thread : forall st0 pre tid pinned sched f p,
+  wf_filt f -> f_nnp f = true -> f_prog f = Ok p ->
+  let w := mk_world (run_hist st0 pre) tid pinned sched in
+  exists j, let t := thread_at kstate w j in
+  live (run_hist st0 pre) t ->
+  let st1 := prctl_set_nnp (run_hist st0 pre) t in
+  (exists caller, find_thread st1 t = Some caller /\ t_nnp caller = true) /\
+  run_hist st0 (pre ++ [HLoad tid pinned sched f]) = fst (fst (do_seccomp st1 t SECCOMP_SET_MODE_FILTER (f_flag f) (fprog p))).
+Proof.
+  intros st0 pre tid pinned sched f p Wf Hn Ep w.
+  destruct (nnp_before_install_step load Hload w f p Wf Hn Ep) as [j H]. exists j. cbv zeta in *.
+  intro Hl. destruct (H Hl) as [H1 [H2 _]]. split; [exact H1|].
+  rewrite run_hist_snoc. cbn [apply_op]. exact H2.
+Qed.
+
+Theorem unprivileged_can_load : forall st0 pre tid pinned sched f p,
+  wf_filt f -> f_nnp f = true -> f_prog f = Ok p ->
+  let w := mk_world (run_hist st0 pre) tid pinned sched in
+  exists j, let t := thread_at kstate w j in
+  forall caller, find_thread (run_hist st0 pre) t = Some caller ->
+  attachable (prctl_set_nnp (run_hist st0 pre) t) (with_nnp caller true) (f_flag f) p ->
+  snd (load w f) = LNil.
+Proof. intros. apply (unprivileged_can_load_step load Hload w f p H H0 H1). Qed.
+
+Theorem nnp_untouched : forall st0 pre tid pinned sched f,
+  wf_filt f -> f_nnp f = false ->
+  forall th', In th' (ks_threads (run_hist st0 (pre ++ [HLoad tid pinned sched f]))) ->
+  exists th, In th (ks_threads (run_hist st0 pre)) /\ t_tid th = t_tid th' /\
+    (t_nnp th' = t_nnp th \/
+     (has_flag (f_flag f) FLAG_TSYNC = true /\ exists c, In c (ks_threads (run_hist st0 pre)) /\ t_nnp c = true)).
+Proof.
+  intros st0 pre tid pinned sched f Wf Hn th' Hin.
+  rewrite run_hist_snoc in Hin. cbn [apply_op] in Hin.
+  exact (nnp_untouched_step load Hload (mk_world (run_hist st0 pre) tid pinned sched) f Wf Hn th' Hin).
+Qed.
+
+Theorem unprivileged_without_nnp_fails : forall st0 pre tid pinned sched f,
+  wf st0 -> Forall op_ok pre -> wf_filt f -> f_nnp f = false ->
+  (forall th, In th (ks_threads (run_hist st0 pre)) -> t_nnp th = false /\ t_priv th = false) ->
+  snd (load (mk_world (run_hist st0 pre) tid pinned sched) f) = LErr /\
+  run_hist st0 (pre ++ [HLoad tid pinned sched f]) = run_hist st0 pre.
+Proof.
+  intros st0 pre tid pinned sched f W Hok Wf Hn Hun.
+  destruct (unprivileged_without_nnp_fails_step load Hload (mk_world (run_hist st0 pre) tid pinned sched) f
+              (run_hist_wf _ _ W Hok) Wf Hn Hun) as [H1 H2].
+  split; [exact H1|]. rewrite run_hist_snoc. cbn [apply_op]. exact H2.
+Qed.
+End Histories.
+
+(** ** 5. defect D8, kept as a refutation: without the two LockOSThread statements the C11 theorem is false.
+    [strip_locks] removes every runtime.LockOSThread / UnlockOSThread call (also deferred ones) from the
+    regenerated functions; on the result there is a schedule - the goroutine runs prctl on thread 100 and is
+    moved to thread 101 before seccomp - under which an unprivileged process asking for NoNewPrivs gets an
+    error and no filter. The check is a closed computation on the regenerated skeleton. *)
+Definition is_lock (c:ex) : bool :=
+  match ex_path c with
+  | Some p => String.eqb p "runtime.LockOSThread" || String.eqb p "runtime.UnlockOSThread"
+  | None => false
+  end.
+
+Fixpoint strip_locks_sk (s:sk) : list sk :=
+  match s with
+  | SCall _ _ c _ => if is_lock c then [] else [s]
+  | SDefer c _ => if is_lock c then [] else [s]
+  | SIf c t e => [SIf c (flat_map strip_locks_sk t) (flat_map strip_locks_sk e)]
+  | SBlock b => [SBlock (flat_map strip_locks_sk b)]
+  | _ => [s]
+  end.
+
+Definition strip_locks (funs:list skfun) : list skfun :=
+  map (fun f => {| fn_name := fn_name f; fn_params := fn_params f; fn_variadic := fn_variadic f;
+                   fn_body := flat_map strip_locks_sk (fn_body f) |}) funs.
+
+Definition has_locks (funs:list skfun) : bool :=
+  existsb (fun f => existsb (String.eqb "runtime.LockOSThread") (calls_of (fn_body f))
+                    && existsb (String.eqb "defer runtime.UnlockOSThread") (calls_of (fn_body f))) funs.
+
+Definition d8_state : kstate :=
+  fst (clone (init_state 100 false) 100).          (* two unprivileged threads, 100 and 101 *)
+Definition d8_filt : filt :=
+  {| f_nnp := true; f_flag := 0; f_prog := Ok [ILd 0; IRet 2147418112] |}.
+Definition d8_sched (m:nat) : nat -> N := fun i => if Nat.ltb i m then 100 else 101.
+Definition d8_world (m:nat) : kworld :=
+  {| w_k := d8_state; w_cur := 100; w_pins := 0%nat; w_sched := d8_sched m; w_step := 0%nat; w_log := [] |}.
+
+Definition d8_fails (funs:list skfun) (lc:lconsts) (m:nat) : bool :=
+  match load_sem kstate do_seccomp do_prctl funs lc (d8_world m) d8_filt with
+  | (w', LErr) => forallb (fun th => match t_filters th with [] => true | _ => false end) (ks_threads (w_k w'))
+                  && existsb (fun th => t_nnp th) (ks_threads (w_k w'))
+  | _ => false
+  end.
+Definition d8_check (funs:list skfun) (lc:lconsts) : bool :=
+  existsb (d8_fails (strip_locks funs) lc) (seq 0 80).
+
+Theorem unpinned_refuted : forall funs lc, d8_check funs lc = true ->
+  exists sched,
+    (forall i, live d8_state (sched i)) /\
+    (forall th, In th (ks_threads d8_state) -> t_priv th = false) /\
+    f_nnp d8_filt = true /\
+    let w := {| w_k := d8_state; w_cur := 100; w_pins := 0%nat; w_sched := sched; w_step := 0%nat; w_log := [] |} in
+    snd (load_sem kstate do_seccomp do_prctl (strip_locks funs) lc w d8_filt) = LErr.
+Proof.
+  intros funs lc H. unfold d8_check in H. apply existsb_exists in H. destruct H as [m [_ Hm]].
+  exists (d8_sched m). split; [|split; [|split; [reflexivity|]]].
+  - intro i. unfold d8_sched. destruct (Nat.ltb i m); eexists; vm_compute; reflexivity.
+  - intros th Hin. vm_compute in Hin. destruct Hin as [<-|[<-|[]]]; reflexivity.
+  - cbv zeta. unfold d8_fails, d8_world in Hm.
+    destruct (load_sem kstate do_seccomp do_prctl (strip_locks funs) lc _ d8_filt) as [w' r].
+    cbn [snd]. destruct r; [discriminate|reflexivity|discriminate].
+Qed.
